@@ -255,6 +255,42 @@ func (vc *VC) evalSpec(e *Expr, env *SpecEnv) SV {
 			cp.role, cp.pol = 0, 0
 			vc.qhyps = append(vc.qhyps, qhyp{e: e, env: &cp, path: append([]T{}, env.path...)})
 		}
+		var extraInst []T
+		if env.role == 1 && env.pol < 0 && e.Name == "forall" && allInt && len(e.Vars) == 1 && !vc.dry {
+			// a universally quantified hypothesis inside the goal: conjoin instances at the known index terms
+			var cands []T
+			seenC := map[T]bool{}
+			addC := func(t T) {
+				if !seenC[t] && !strings.Contains(t, "q_") && len(cands) < 10 {
+					seenC[t] = true
+					cands = append(cands, t)
+				}
+			}
+			for _, t := range vc.goalSk {
+				addC(t)
+			}
+			for _, ts := range vc.goalIdx {
+				if ts[1] == "Int" {
+					addC(ts[0])
+				}
+			}
+			for i := len(vc.progIdx) - 1; i >= 0 && i >= len(vc.progIdx)-6; i-- {
+				addC(vc.progIdx[i])
+			}
+			v := e.Vars[0]
+			for _, t := range cands {
+				nb := env.bind(v[0], SV{t: t, srt: "Int"}).nopol()
+				nb.role = 0
+				b := vc.evalSpec(e.Args[0], nb).t
+				switch specSort(v[1]) {
+				case "byte":
+					b = implies(inRange(t, "0", "255"), b)
+				case "nat":
+					b = implies(le("0", t), b)
+				}
+				extraInst = append(extraInst, b)
+			}
+		}
 		n := env.nopol()
 		var binders []string
 		var ranges []T
@@ -291,7 +327,11 @@ func (vc *VC) evalSpec(e *Expr, env *SpecEnv) SV {
 			}
 			body = "(! " + body + " :pattern (" + strings.Join(pats, " ") + "))"
 		}
-		return mathBool("(" + e.Name + " (" + strings.Join(binders, " ") + ") " + body + ")")
+		q := "(" + e.Name + " (" + strings.Join(binders, " ") + ") " + body + ")"
+		if len(extraInst) > 0 {
+			q = and(append([]T{q}, extraInst...)...)
+		}
+		return mathBool(q)
 	case "select":
 		return vc.evalSelect(e, env)
 	case "index":
